@@ -19,16 +19,27 @@
 //! ```
 use ironplc_dsl::{
     common::*,
-    core::Located,
+    core::{Id, Located},
     diagnostic::{Diagnostic, Label},
     visitor::Visitor,
 };
 use ironplc_problems::Problem;
+use std::collections::HashSet;
 
 use crate::result::SemanticResult;
 
 pub fn apply(lib: &Library) -> SemanticResult {
+    // A function block instance that is declared with initial values parses as a
+    // structure initialization, so we need the names of the function blocks
+    let mut function_blocks = HashSet::new();
+    for elem in lib.elements.iter() {
+        if let LibraryElementKind::FunctionBlockDeclaration(decl) = elem {
+            function_blocks.insert(&decl.name);
+        }
+    }
+
     let mut visitor = RuleVarDeclConstIsNotFunctionBlock {
+        function_blocks,
         diagnostics: Vec::new(),
     };
     visitor.walk(lib).map_err(|e| vec![e])?;
@@ -39,16 +50,26 @@ pub fn apply(lib: &Library) -> SemanticResult {
     Ok(())
 }
 
-struct RuleVarDeclConstIsNotFunctionBlock {
+struct RuleVarDeclConstIsNotFunctionBlock<'a> {
+    function_blocks: HashSet<&'a Id>,
     diagnostics: Vec<Diagnostic>,
 }
 
-impl Visitor<Diagnostic> for RuleVarDeclConstIsNotFunctionBlock {
+impl Visitor<Diagnostic> for RuleVarDeclConstIsNotFunctionBlock<'_> {
     type Value = ();
 
     fn visit_var_decl(&mut self, node: &VarDecl) -> Result<(), Diagnostic> {
         if node.qualifier == DeclarationQualifier::Constant {
-            if let InitialValueAssignmentKind::FunctionBlock(fb) = &node.initializer {
+            let type_name = match &node.initializer {
+                InitialValueAssignmentKind::FunctionBlock(fb) => Some(&fb.type_name),
+                InitialValueAssignmentKind::Structure(si)
+                    if self.function_blocks.contains(&si.type_name.name) =>
+                {
+                    Some(&si.type_name)
+                }
+                _ => None,
+            };
+            if let Some(type_name) = type_name {
                 self.diagnostics.push(
                     Diagnostic::problem(
                         Problem::FunctionBlockNotConstant,
@@ -57,7 +78,7 @@ impl Visitor<Diagnostic> for RuleVarDeclConstIsNotFunctionBlock {
                             "Declaration of function block instance",
                         ),
                     )
-                    .with_context_type("function block", &fb.type_name),
+                    .with_context_type("function block", type_name),
                 );
             }
         }
